@@ -25,6 +25,7 @@ type seqT struct {
 	Kinds []string      `json:"kinds"` // per call: silence | cancel0 | cancel1 | accept0 | accept1
 	Idle  time.Duration `json:"idle"`  // pause between two calls
 	Cfg   int           `json:"cfg"`
+	Reuse bool          `json:"reuse"` // the caller re-submits one message object that it edits in place between the calls
 }
 
 type callObs struct {
@@ -45,9 +46,14 @@ func runSeq(t *testing.T, sc seqT) (obs []callObs, wants [][]byte) {
 			t.Fatal(err)
 		}
 		t0 := time.Now()
+		shared := f.Request(0x00a1b200, 3) // sc.Reuse: one message object, edited in place between the calls
 		for i, kind := range sc.Kinds {
 			xid := uint32(0x00a1b200 + i%2) // the same transaction id comes back every other call
 			req := f.Request(xid, 7*i)
+			if sc.Reuse {
+				shared.Edit(xid, byte(i+1))
+				req = shared
+			}
 			wants = append(wants, req.Bytes())
 			var o callObs
 			o.start = time.Since(t0)
@@ -188,7 +194,7 @@ func judgeSeq(r *mon.Rec, t *testing.T, sc seqT) {
 		}
 		r.Count("seq.transmissions_checked", len(o.writes))
 	}
-	r.Shape(fmt.Sprintf("seq/%s/%v/%d/%v/%v", sc.Fam, sc.T, sc.N, sc.Kinds, sc.Idle), true)
+	r.Shape(fmt.Sprintf("seq/%s/%v/%d/%v/%v/%v", sc.Fam, sc.T, sc.N, sc.Kinds, sc.Idle, sc.Reuse), true)
 }
 
 func seqGrid(quick bool) []seqT {
@@ -200,12 +206,12 @@ func seqGrid(quick bool) []seqT {
 			for n := 1; n <= 3; n++ {
 				for _, a := range kinds {
 					for _, b := range kinds {
-						out = append(out, seqT{true, fm, T, n, []string{a, b}, 0, len(out) % cli.NCfg})
+						out = append(out, seqT{true, fm, T, n, []string{a, b}, 0, len(out) % cli.NCfg, len(out)%2 == 0})
 						for _, c := range kinds {
 							if quick && (len(a)+len(b)+len(c)+n)%3 != 0 {
 								continue
 							}
-							out = append(out, seqT{true, fm, T, n, []string{a, b, c}, []time.Duration{0, T, 7 * T}[len(out)%3], len(out) % cli.NCfg})
+							out = append(out, seqT{true, fm, T, n, []string{a, b, c}, []time.Duration{0, T, 7 * T}[len(out)%3], len(out) % cli.NCfg, len(out)%2 == 0})
 						}
 					}
 				}
